@@ -88,15 +88,15 @@ type Profile struct {
 	Depth     int
 	WithGhost bool
 	Oracles   []Oracle
-	MaxTrans  int64         // cap on transitions (0 = none)
+	MaxTrans  int64 // cap on transitions (0 = none)
 	// MaxStates caps the visited set, MaxFrontier the number of stored (encoded) states of one
 	// level (0 = defaults). When a cap is hit the level in progress is still checked completely
 	// (every new state hashed and examined), but the search does not go deeper; the result says
 	// exhaustive:false and names the last fully expanded depth.
 	MaxStates   int64
 	MaxFrontier int64
-	Deadline  time.Duration // internal time cap (0 = none); hitting it ends the run with Exhaustive=false
-	Workers   int
+	Deadline    time.Duration // internal time cap (0 = none); hitting it ends the run with Exhaustive=false
+	Workers     int
 	// PostStep, if set, is called on every transition after the oracles (differential checks).
 	PostStep func(c *Ctx, pre *world.World, act world.Action, post *world.World, legs []*world.Leg)
 }
